@@ -43,12 +43,15 @@ Rule2 == [name |-> r2name, uid |-> Uid(2), ls |-> Ls(cat2, prod2, <<>>),
           doc |-> [dets |-> <<Det(RP, n_sel)>>, conds |-> <<n_sel>>]]
 MkFilter(fam, fc, ls, kind) == [ls |-> ls, any |-> kind = "any", rules |-> RulesOf(kind),
                               doc |-> [dets |-> [k \in 1..5 |-> Det(FP, FilterNames(fam)[k])], conds |-> <<CPrint(fc, "min")>>]]
+\* the second of two stacked filters: the same detection NAMES over other fields (G_)
+GP == <<71, 95>>
+MkFilter2(fam, fc, ls, kind) == [MkFilter(fam, fc, ls, kind) EXCEPT !.doc.dets = [k \in 1..5 |-> Det(GP, FilterNames(fam)[k])]]
 Single == {[rules |-> <<Rule1(<<CPrint(rc, "min")>>), Rule2>>, filters |-> <<MkFilter(1, fc, ls, kind)>>] :
              rc \in RuleConds, fc \in FilterConds, ls \in FilterLss, kind \in RuleListKinds}
 TwoConds == {[rules |-> <<Rule1(<<CPrint(rc, "min"), n_sel_a>>), Rule2>>, filters |-> <<MkFilter(1, fc, Ls(cat1, <<>>, <<>>), "any")>>] :
              rc \in RuleConds, fc \in FilterConds}
 Stacked == {[rules |-> <<Rule1(<<CPrint(rc, "min")>>), Rule2>>,
-             filters |-> <<MkFilter(1, f1, Ls(cat1, <<>>, <<>>), "any"), MkFilter(1, f2, Ls(<<>>, prod1, <<>>), k2)>>] :
+             filters |-> <<MkFilter(1, f1, Ls(cat1, <<>>, <<>>), "any"), MkFilter2(1, f2, Ls(<<>>, prod1, <<>>), k2)>>] :
              rc \in RuleConds, f1 \in FilterConds, f2 \in FilterConds, k2 \in {"name", "other"}}
 Underscore == {[rules |-> <<Rule1(<<CPrint(rc, "min")>>), Rule2>>, filters |-> <<MkFilter(2, fc, Ls(cat1, <<>>, <<>>), "any")>>] :
              rc \in RuleConds, fc \in FilterConds \cup {CId(n_usx), CSel("1", <<95,42>>)}}
@@ -60,6 +63,11 @@ Rule3(rc) == [name |-> r3name, uid |-> Uid(3), ls |-> RuleLs,
 TwoTargets == {[rules |-> <<Rule1(<<CPrint(rc, "min")>>), Rule3(<<CPrint(rc, "min")>>)>>,
                 filters |-> <<MkFilter(1, fc, Ls(cat1, <<>>, <<>>), "any")>>, pipe |-> TRUE] :
                  rc \in {CId(n_sel), CSel("all", S_them)}, fc \in FilterConds}
+\* the same two rules with TWO conditions each, written the short way: the condition list stands once, in a global action
+\* document in front of the two rule documents (the driver writes the collection that way when glob is set)
+SharedConds == {[rules |-> <<Rule1(<<CPrint(rc, "min"), n_sel_a>>), Rule3(<<CPrint(rc, "min"), n_sel_a>>)>>,
+                 filters |-> <<MkFilter(1, fc, Ls(cat1, <<>>, <<>>), kind)>>, pipe |-> FALSE, glob |-> TRUE] :
+                 rc \in {CId(n_sel), CSel("all", S_them), CSel("1", <<95,42>>)}, fc \in FilterConds, kind \in {"any", "name", "other"}}
 \* a rule whose NAME reads as a UUID (32 hexadecimal digits), named by the filter by that name
 hexn == <<100, 101, 97, 100, 98, 101, 101, 102, 100, 101, 97, 100, 98, 101, 101, 102, 100, 101, 97, 100, 98, 101, 101, 102, 100, 101, 97, 100, 98, 101, 101, 102>>
 HexName == {[rules |-> <<[Rule1(<<CPrint(rc, "min")>>) EXCEPT !.name = hexn], Rule2>>,
@@ -70,7 +78,7 @@ KwNamed == {[rules |-> <<Rule1(<<CPrint(rc, "min")>>), Rule2>>, filters |-> <<Mk
               fc \in {CNot(CId(n_all)), CId(n_any), CBin("cand", CId(n_sel), CNot(CId(n_of))), CNot(CId(n_one)),
                       CSel("1", <<97,42>>), CBin("cor", CSel("all", S_them), CId(n_all))}}
 NoPipe(S) == {c @@ [pipe |-> FALSE] : c \in S}
-ASSUME LET S == SetToSeq(TwoTargets \cup NoPipe(Single \cup TwoConds \cup HexName \cup KwNamed \cup Underscore \cup (IF Quick THEN RandomSubset(150, Stacked) ELSE Stacked)))
+ASSUME LET S == SetToSeq(TwoTargets \cup SharedConds \cup NoPipe(Single \cup TwoConds \cup HexName \cup KwNamed \cup Underscore \cup (IF Quick THEN RandomSubset(150, Stacked) ELSE Stacked)))
        IN  ndJsonSerialize(IOEnv.VERIF_OUT, [i \in 1..Len(S) |-> [id |-> i] @@ S[i]])
 Init == x = 0
 Next == UNCHANGED x
